@@ -211,7 +211,8 @@ def _find_starting_node(meta_molecule):
     otherwise return first node in list of nodes.
     """
     for node in meta_molecule.nodes:
-        if "build" not in meta_molecule.nodes[node]:
+        # nodes with coordinates are the ones that do not have to be built
+        if not meta_molecule.nodes[node].get("build", True):
             return node
     return next(iter(meta_molecule.nodes()))
 
